@@ -64,6 +64,8 @@ func runC20(c *Ctx, r *Report) {
 	checkWaitGroupAddBeforeGo(c, r, "C20/waitgroup-local")
 	r.Rule("C20/readall-drains", "Channel.ReadAll takes everything that is queued unless it received an error from the reader", 1)
 	checkReadAllDrains(c, r, "C20/readall-drains")
+	r.Rule("C20/no-reentrant-lock", "no method calls, while it holds a lock of its receiver, a method of the same receiver that takes that lock again", 1)
+	checkNoReentrantLock(c, r, "C20/no-reentrant-lock", nil)
 	importFoundation(c, r, "C20", "read-loop")
 	importFoundation(c, r, "C20", "transport-pipe")
 	r.Rule("C20/ansi-bounded", "what the read loop strips before queueing cannot span ordinary output: no unbounded repetition of the escape-sequence pattern admits ESC or newline", 1)
